@@ -4,7 +4,6 @@ import (
 	"fmt"
 	"os"
 	"go/types"
-	"strings"
 
 	"golang.org/x/tools/go/ssa"
 )
@@ -141,27 +140,86 @@ func (in *Interp) goStmt(fr *frame, fn Value, args []Value, pos tokenPos) {
 // ---- access tracking (C20) ----
 
 type Access struct {
-	Loc   string
+	Key   string // object id + access path (identity of the memory location)
+	Loc   string // human-readable description (allocation site and field path)
 	Write bool
-	Locks string // held locks, sorted "name:R|W"
+	Locks map[string]bool // held locks: name -> held in write mode
 	Pos   string
 	Op    string
 }
 
-func (in *Interp) recordAccess(p PtrV, write bool, pos tokenPos) {
-	if p.obj == nil || !p.obj.heap {
-		return
-	}
-	var held []string
+func (in *Interp) heldLocks() map[string]bool {
+	held := map[string]bool{}
 	for _, ls := range in.lockTab {
 		if ls.writer {
-			held = append(held, ls.name+":W")
+			held[ls.name] = true
 		} else if ls.readers > 0 {
-			held = append(held, ls.name+":R")
+			held[ls.name] = false
 		}
 	}
-	sortStrings(held)
-	in.accesses = append(in.accesses, Access{Loc: in.describePtr(p), Write: write, Locks: strings.Join(held, ","), Pos: in.posStr(pos), Op: in.curOp})
+	return held
+}
+
+func (in *Interp) recordAccess(p PtrV, write bool, pos tokenPos) {
+	if p.obj == nil || !p.obj.heap || in.curOp == "" {
+		return
+	}
+	if _, isOpaque := p.obj.val.(OpaqueV); isOpaque {
+		return
+	}
+	// sync primitives are handled by the lock table, not as memory
+	if p.obj.typ != nil && len(p.path) == 0 && isSyncType(p.obj.typ) {
+		return
+	}
+	in.accesses = append(in.accesses, Access{Key: lockKey(p), Loc: in.describePtr(p), Write: write, Locks: in.heldLocks(), Pos: in.posStr(pos), Op: in.curOp})
+}
+
+func (in *Interp) recordMapAccess(m *MapObj, write bool, pos tokenPos) {
+	if !in.trackAcc || m == nil || in.curOp == "" {
+		return
+	}
+	in.accesses = append(in.accesses, Access{Key: fmt.Sprintf("map%d", m.id), Loc: "map " + m.kt.String() + "->" + m.vt.String() + " made at " + m.site, Write: write, Locks: in.heldLocks(), Pos: in.posStr(pos), Op: in.curOp})
+}
+
+// locksetConflict finds two accesses of different operations to the same
+// location, at least one a write, that are not ordered by a common mutex
+// (held by both, in write mode by every writer).
+func (in *Interp) locksetConflict() (Access, Access, bool) {
+	byKey := map[string][]int{}
+	for i, a := range in.accesses {
+		byKey[a.Key] = append(byKey[a.Key], i)
+	}
+	keys := make([]string, 0, len(byKey))
+	for k := range byKey {
+		keys = append(keys, k)
+	}
+	sortStrings(keys)
+	for _, k := range keys {
+		idx := byKey[k]
+		for x := 0; x < len(idx); x++ {
+			for y := x + 1; y < len(idx); y++ {
+				a, c := in.accesses[idx[x]], in.accesses[idx[y]]
+				if a.Op == c.Op || (!a.Write && !c.Write) {
+					continue
+				}
+				protected := false
+				for name, aw := range a.Locks {
+					cw, ok := c.Locks[name]
+					if !ok {
+						continue
+					}
+					if (a.Write && !aw) || (c.Write && !cw) {
+						continue // a writer holds it only in read mode
+					}
+					protected = true
+				}
+				if !protected {
+					return a, c, true
+				}
+			}
+		}
+	}
+	return Access{}, Access{}, false
 }
 
 func sortStrings(s []string) {
